@@ -223,6 +223,7 @@ def run(ch: Checker) -> None:
              'the credential check is reached from before_upstream_connection only',
              'the proxy-auth plugin checks credentials from %s: a hook that runs for every later request of a connection -- including each request decrypted out of an intercepted tunnel, which carries no '
              'Proxy-Authorization header -- answers 407 into an already authenticated connection and closes it' % sorted(entry12))
+    ch.import_rules('C11', {'C11.11': 'C04.13'}, 'a request on a persistent TLS client connection is answered however it is packed into records only if one receive takes a whole TLS record (the rest of a partly read record is never announced again)')
     ch.import_rules('C11', {'C11.9': 'C04.11'}, 'a later request on a TLS client connection is answered only if an incomplete TLS record does not tear the connection down')
     ch.import_rules('C07', {'C07.2b': 'C04.8'}, 'the last response on a persistent connection is complete only if the close waits for an empty buffer')
     ch.import_rules('C20', {'C20.2': 'C04.9'}, 'the connection stays usable while a response is being relayed only if writes to the client count as activity')
